@@ -53,6 +53,15 @@ func emitFieldOf(size int64, v ssa.Value) emitField {
 	if size == 2 {
 		if m := constMarker(v); m >= 0xFF00 {
 			f.what, f.marker = "marker", m
+		} else if u, ok := stripConv(v).(*ssa.UnOp); ok && u.Op == token.MUL {
+			// the marker code is a field of a builder object handed in by the caller
+			if fa, ok := u.X.(*ssa.FieldAddr); ok {
+				if _, isParam := fa.X.(*ssa.Parameter); isParam {
+					if b, ok := u.Type().Underlying().(*types.Basic); ok && b.Kind() == types.Uint16 {
+						f.what, f.marker = "marker", -2
+					}
+				}
+			}
 		} else if p, ok := stripConv(v).(*ssa.Parameter); ok {
 			// the marker code is the caller's (generic segment writer): symbolic marker
 			if b, ok := p.Type().Underlying().(*types.Basic); ok && b.Kind() == types.Uint16 {
@@ -531,12 +540,26 @@ func segmentHelper(sc *ssa.Function) segHelper {
 	if !ordered || len(ws) != 3 {
 		return segHelper{}
 	}
-	h.marker = paramIndex(sc, stripConv(ws[0].val))
-	h.body = -1
-	if ws[2].what == "bytes" {
-		h.body = paramIndex(sc, ws[2].val)
+	// marker and payload are parameters, or fields of a parameter (a builder object: s.marker, s.payload)
+	fromParam := func(v ssa.Value) (int, bool) {
+		v = stripConv(v)
+		if pi := paramIndex(sc, v); pi >= 0 {
+			return pi, true
+		}
+		if u, ok := v.(*ssa.UnOp); ok && u.Op == token.MUL {
+			if fa, ok := u.X.(*ssa.FieldAddr); ok && paramIndex(sc, fa.X) >= 0 {
+				return -2, true
+			}
+		}
+		return -1, false
 	}
-	if h.marker < 0 || h.body < 0 || !ws[0].size.equal(linConst(2)) || !ws[1].size.equal(linConst(2)) || !isByteSlice(sc.Params[h.body].Type()) {
+	okM, okB := false, false
+	h.marker, okM = fromParam(ws[0].val)
+	h.body = -1
+	if ws[2].what == "bytes" && ws[2].val != nil && isByteSlice(ws[2].val.Type()) {
+		h.body, okB = fromParam(ws[2].val)
+	}
+	if !okM || !okB || !ws[0].size.equal(linConst(2)) || !ws[1].size.equal(linConst(2)) {
 		return segHelper{}
 	}
 	h.ok = true
